@@ -167,8 +167,15 @@ func rawList(c *ev.Case, o *rawOpts, depth int, classes *[]string) []byte {
 			cls = fmt.Sprintf("Grouped/depth=%d", depth)
 		}
 		flags := uint8(0x40)
+		if r.IntN(8) == 0 { // any combination of M, P and the reserved bits
+			flags = uint8(r.Uint32()) & 0x7f
+			cls += "/flags=any"
+		}
 		if def.Vendor != 0 {
 			flags |= 0x80
+		} else if r.IntN(16) == 0 { // the V bit with a Vendor-ID field of 0: 12-byte header, resolves like the vendorless code
+			flags |= 0x80
+			cls += "/V-with-vendor-0"
 		}
 		hl := 8
 		if flags&0x80 != 0 {
